@@ -16,7 +16,7 @@ BOUND = {
              "{0,1}-valued for n=6 (32768); 4000 random matrices n<=12 (reals, negatives, small integers with ties); "
              "1500 optimalSegmentation/optimalSimplification/simplify(FREE) runs with a table-driven cost function (n<=9); "
              "300 findStopsGlobal runs on random 2-D tracks of 5..9 fixes",
-    "thorough": "optimalPartition, both directions: all symmetric {0,1,2}-valued matrices n=2..5 and {0,1}-valued n=6; "
+    "thorough": "optimalPartition, both directions: all symmetric {0,1,2}-valued matrices n=2..5 and {0,1}-valued n=6 and n=7; "
                 "80000 random matrices n<=12; 20000 optimalSegmentation/optimalSimplification/simplify(FREE) runs (n<=10); "
                 "5000 findStopsGlobal runs on random 2-D tracks of 5..10 fixes"}
 RULE = ("exhaustive case = block of consecutive base-b codes of the strict upper triangle of the candidate matrix; the unused "
@@ -24,7 +24,7 @@ RULE = ("exhaustive case = block of consecutive base-b codes of the strict upper
         "non-trivial = n >= 3 (more than one partition)")
 CHUNK = 10
 BUDGET_S = {"quick": 75, "thorough": 1500}
-BLOCK = 1500
+BLOCK = 2000
 
 
 # ----------------------------------------------------------------------------------------------
@@ -191,7 +191,7 @@ def random_stop_track(rnd, size):
 def cases(tier, seed):
     rnd = random.Random(seed)
     # 1. exhaustive small matrices, both directions
-    for n, base in ((2, 3), (3, 3), (4, 3), (5, 3), (6, 2)):
+    for n, base in ((2, 3), (3, 3), (4, 3), (5, 3), (6, 2)) + (((7, 2),) if tier == "thorough" else ()):
         total = base ** tri_len(n)
         for start in range(0, total, BLOCK):
             yield dict(kind="exh", n=n, base=base, start=start, count=min(BLOCK, total - start))
